@@ -29,6 +29,7 @@ const char* kAtGridPoint = "C18-grid-value-at-grid-point";
 const char* kFlatSegment = "C18-grid-lp-integral-skips-flat-segments";
 const char* kHeapLevels = "C18-grid-truncated-levels-heap";
 const char* kSupNegative = "C18-grid-sup-distance-negative-extra-levels";
+const char* kIntAbs = "C18-grid-sup-distance-integer-abs";
 
 bool close(double x, R y) {
   if (!std::isfinite(x)) return false;
@@ -108,6 +109,20 @@ bool sup_negative_trigger(const Case& cs, const rl::Func& f1, const rl::Func& f2
     for (unsigned k = 0; k < std::max(f1.levels, f2.levels); ++k) {
       R a = f1.value(k, t), b = f2.value(k, t);
       if ((a < 0 && b == 0) || (b < 0 && a == 0)) return true;  // conservative: a negative value facing a zero one
+    }
+  }
+  return false;
+}
+
+// Known finding C18-grid-sup-distance-integer-abs: the same function calls the unqualified abs(), which resolves to the
+// C function abs(int) unless a header that exports std::abs to the global namespace happens to be included first: the
+// difference is truncated towards zero. Trigger (conservative): some level differs by a non-integer at a grid point.
+bool int_abs_trigger(const Case& cs, const rl::Func& f1, const rl::Func& f2) {
+  for (unsigned i = 0; i <= cs.npts; ++i) {
+    R t = R(cs.gmin) + R(i) * cs.dx();
+    for (unsigned k = 0; k < std::max(f1.levels, f2.levels); ++k) {
+      R d = f1.value(k, t) - f2.value(k, t);
+      if (d != std::floor(d)) return true;
     }
   }
   return false;
@@ -305,6 +320,10 @@ void run_case(Tape& t, Ctx& ctx) {
         }
         if (p == 2 && has_flat_nonzero_cell(cs, diff) && ctx.excluded(kFlatSegment)) {
           ctx.hit(std::string("excluded:") + kFlatSegment);
+          continue;
+        }
+        if (p == 0 && ctx.excluded(kIntAbs) && int_abs_trigger(cs, *ops[i].f, *ops[j].f)) {
+          ctx.hit(std::string("excluded:") + kIntAbs);
           continue;
         }
         if (p == 0 && ctx.excluded(kSupNegative) && sup_negative_trigger(cs, *ops[i].f, *ops[j].f)) {
